@@ -240,6 +240,7 @@ SPECS["C11"].update(replay=parse_checks.replay)
 import misc_checks, text_checks
 for _k, _v in misc_checks.SPECS.items():
     SPECS[_k] = dict(_v)
+    SPECS[_k]["replay"] = misc_checks.replay
 SPECS["C16"].update(
     claim="Theorems C16_* (22): for every stream of shuffles, each a permutation of the labels, the helper's result is one of the draws applied as a bijective renaming with every atom field and "
           "bond datum carried, atoms listed in ascending label order on the same label set; with >= 2 bonds and not complete the returned edge set differs (and such a draw exists: "
